@@ -13,7 +13,6 @@ import (
 	"runtime/debug"
 	"strconv"
 	"strings"
-	"sync"
 	"sync/atomic"
 	"testing"
 
@@ -31,10 +30,6 @@ var (
 	verifDir  = getenvDefault("VERIF_DIR", "/verif")
 
 	Ev *Evidence
-
-	infraFailed atomic.Bool
-	infraMsgs   []string
-	infraMu     sync.Mutex
 
 	knownFindings []knownFinding
 	violationSeen atomic.Bool
@@ -72,14 +67,6 @@ func getenvFloat(k string, d float64) float64 {
 }
 
 func thorough() bool { return envTier == "thorough" }
-
-// infra records a harness/infrastructure problem (never a property verdict).
-func infra(format string, args ...any) {
-	infraFailed.Store(true)
-	infraMu.Lock()
-	infraMsgs = append(infraMsgs, fmt.Sprintf(format, args...))
-	infraMu.Unlock()
-}
 
 func loadKnownFindings() {
 	f, err := os.Open(filepath.Join(verifDir, "KNOWN_FINDINGS.txt"))
@@ -172,23 +159,6 @@ func TestMain(m *testing.M) {
 		}
 	}
 	os.Exit(code)
-}
-
-// Violation is a property verdict on one case. Key, when non-empty, is the
-// signature matched against KNOWN_FINDINGS.txt.
-type Violation struct {
-	Msg string
-	Key string
-}
-
-func (v *Violation) Error() string { return v.Msg }
-
-func violf(format string, args ...any) *Violation {
-	return &Violation{Msg: fmt.Sprintf(format, args...)}
-}
-
-func violKey(key, format string, args ...any) *Violation {
-	return &Violation{Msg: fmt.Sprintf(format, args...), Key: key}
 }
 
 type replayFile struct {
@@ -340,11 +310,3 @@ func runChecks[C any](t *testing.T, phase string, quickN, thoroughN int, gen *ra
 	}
 }
 
-// jsonKey is a canonical-ish encoding used for distinctness hashing.
-func jsonKey(v any) string {
-	b, err := json.Marshal(v)
-	if err != nil {
-		return fmt.Sprintf("%#v", v)
-	}
-	return string(b)
-}
